@@ -6,7 +6,7 @@ import enginecheck
 def run(tier, seed):
     chk = Check('C03', tier, seed)
     W = workdir('C03')
-    enginecheck.run_engines(chk, 'C03', W, tier, seed + 3, 63)
+    enginecheck.run_engines(chk, 'C03', W, tier, seed + 3, 63, batches_per_doc=14 if tier == 'quick' else 200)
     return chk.finish()
 
 
